@@ -34,6 +34,12 @@ var negOp = map[token.Token]token.Token{
 	token.EQL: token.NEQ, token.NEQ: token.EQL,
 }
 
+var impliedOps = map[token.Token][]token.Token{
+	token.EQL: {token.GEQ, token.LEQ},
+	token.LSS: {token.LEQ, token.NEQ},
+	token.GTR: {token.GEQ, token.NEQ},
+}
+
 // condFacts splits a condition known to be true (or false) into atomic facts.
 func condFacts(e ast.Expr, truth bool, out *[]ast.Expr, strs *[]string) {
 	e = ast.Unparen(e)
@@ -66,6 +72,11 @@ func condFacts(e ast.Expr, truth bool, out *[]ast.Expr, strs *[]string) {
 			}
 			*out = append(*out, e)
 			*strs = append(*strs, types.ExprString(x.X)+" "+op.String()+" "+types.ExprString(x.Y))
+			// weaker facts implied by this one (a == b gives a >= b and a <= b, ...)
+			for _, w := range impliedOps[op] {
+				*out = append(*out, e)
+				*strs = append(*strs, types.ExprString(x.X)+" "+w.String()+" "+types.ExprString(x.Y))
+			}
 			return
 		}
 	case *ast.UnaryExpr:
